@@ -63,6 +63,19 @@ CHECKS = {
    technique="same TLA+ Transcode spec; every shape with a competing value for a path-bound field in the query and/or the body (negative config ParamOrder=query-last must fail); validated by TLC against TranscodeTrace.tla (PathAuthoritative)",
    text="TLC proves on the model that path captures applied last make path-bound fields authoritative (the query-last variant violates it) and every competing shape is executed for real with fields of every kind, in every query order: the handler must see the path value.",
    note=TB),
+
+ "C11": dict(engine="Registry", level="model_checking", design="3.3, 6/C11",
+   technique="TLA+ Registry spec: fine-grained writer/reader model checked by TLC (3 negative configs), coarse operation model as history generator; every TLC-enumerated history replayed on a real Mux with tagged bufconn gRPC backends discovered by server reflection; validated by TLC against RegistryTrace.tla (DispatchLive, NoFalseUnimplemented, NoneIsUnimplemented, SafeOps, OpResult)",
+   text="All histories of RegisterService / RegisterConn / re-register unchanged / DropConn / drop unknown / failing registration up to length 3 (and sampled length 4-5) over a local service and two connections serving the same and different services are executed; after every step each method is requested 24-40 times over its HTTP rule, its implicit path and gRPC framing, and TLC requires that only currently registered backends answer, that a method with a live backend is always served, that a method with none is Unimplemented/NotFound, and that every operation returns what the model says without crashing.",
+   note="The random handler pick is sampled (24-40 requests per probe). " + TB),
+ "C12": dict(engine="Registry", level="model_checking", design="3.3, 6/C12",
+   technique="TLA+ Registry fine-grained model (lock, clone, per-method modify, fail, publish, unlock vs load, match, pick) exhaustively checked by TLC with negative configs (shallow clone, two loads, publish per method); deterministic snapshot-fingerprint monitor over all C11 histories (hook VerifSnapshot/VerifFingerprint); two-writer seeded stress under the race detector with interval trace validation by TLC against RegStressTrace.tla",
+   text="TLC explores every interleaving of two writers and two readers (about 2M states) for PublishedImmutable, AtomicVisibility, NoTornAnswer, FailedRegNoChange; on the code, every history step re-fingerprints the snapshot captured before it (in-place mutation of a published trie or handler map shows on the first history that touches it) and failing registrations must leave the published fingerprint unchanged; two writer goroutines and eight readers then run concurrently with all start/end events numbered by one atomic counter and TLC requires each request's outcome to be allowed by one state published within its interval and already-registered methods to keep being served; the same executions run under -race and any report is a violation.",
+   note="Data-race freedom is only monitored on the executed schedules (DESIGN 8). " + TB),
+ "C20": dict(engine="Mount", level="model_checking", design="3.8, 6/C20",
+   technique="TLA+ Mount spec (ServeMux longest-pattern selection, prefix strip) checked by TLC; every mount-pattern set TLC enumerates installed through NewServer and probed on transcoding, Twirp, gRPC and gRPC-web against the bare Mux; validated by TLC against MountTrace.tla (PrefixTransparent, OutsideNotServed, ExtraHandlersKept)",
+   text="For all 72 configurations (pattern sets of size <=3 from {/, /x, /x/, /x/y, /twirp, /api/}, with and without extra handlers) and requests under every prefix, no prefix, look-alike and foreign prefixes: TLC decides which registered pattern owns the path and requires the response digest (status, headers, trailers, body) to equal the bare mux's response to the stripped path, ServeMux's own 404 outside every prefix, and the extra handlers' tags on their patterns.",
+   note="Direct drive of NewServer(...).Handler (h2c wrapper included) with httptest; unclean paths are unspecified. " + TB),
 }
 
 NOT_YET = {}
